@@ -571,8 +571,13 @@ func runC05(c *Ctx) {
 			if !ok {
 				return
 			}
+			var f *ssa.Function
 			if mc, ok := d.Call.Value.(*ssa.MakeClosure); ok {
-				f := mc.Fn.(*ssa.Function)
+				f = mc.Fn.(*ssa.Function)
+			} else if sc := d.Call.StaticCallee(); sc != nil && len(sc.Blocks) > 0 {
+				f = sc // defer i.finishRun(&err): recover() called directly by the deferred method works as well
+			}
+			if f != nil {
 				has := false
 				EachInstr(f, func(i2 ssa.Instruction) {
 					if IsBuiltinCall(i2, "recover") {
@@ -585,7 +590,7 @@ func runC05(c *Ctx) {
 			}
 		})
 		if recDefer == nil {
-			c.Bad("O5.6", key+":recover-armed", instRun.Pos(), "instance.Run has no deferred closure calling recover()")
+			c.Bad("O5.6", key+":recover-armed", instRun.Pos(), "instance.Run has no deferred function calling recover()")
 		} else {
 			// armed before the loop: dominates every Shoot-reaching call, i.e. the block is the entry or dominates the loop body call
 			_, body, _ := engineLoop(c, "O5.6")
@@ -616,12 +621,22 @@ func runC05(c *Ctx) {
 				if !ok {
 					return
 				}
-				fv, ok := st.Addr.(*ssa.FreeVar)
-				if !ok {
+				var cells []ssa.Value
+				switch a := st.Addr.(type) {
+				case *ssa.FreeVar:
+					// bound to the named result cell of Run
+					cells = BoundValues(a)
+				case *ssa.Parameter:
+					// *runErr = ...: the argument of the defer statement
+					for i, p := range recFn.Params {
+						if p == a && i < len(recDefer.Call.Args) {
+							cells = append(cells, recDefer.Call.Args[i])
+						}
+					}
+				default:
 					return
 				}
-				// bound to the named result cell of Run
-				for _, bv := range BoundValues(fv) {
+				for _, bv := range cells {
 					if a, ok := bv.(*ssa.Alloc); ok && types.Identical(a.Type().(*types.Pointer).Elem(), errType) {
 						// non-nil edge
 						for _, f := range CmpFactsAt(st) {
